@@ -138,7 +138,7 @@ class Fx:
                 return [(m, l) for m, l in n.succ if l != "true"]
         return n.succ
 
-    def reach(self, starts, var=None, facts=None, avoid=lambda n: False, stop=lambda n: False):
+    def reach(self, starts, var=None, facts=None, avoid=lambda n: False, stop=lambda n: False, avoid_env=None):
         """Nodes reachable from `starts` on paths that are feasible under the kind facts and under the constants the
         flag locals hold on that very path."""
         facts = facts if facts is not None else {}
@@ -148,7 +148,7 @@ class Fx:
         while dq:
             st = dq.popleft()
             n, env = st
-            if st in seen or avoid(n):
+            if st in seen or avoid(n) or (avoid_env is not None and avoid_env(n, dict(env))):
                 continue
             seen.add(st)
             if stop(n):
